@@ -749,3 +749,17 @@ func (w *World) returnsThroughDepth(fn *ssa.Function, depth int) []*ssa.Return {
 	}
 	return out
 }
+
+// sameTypeArgs: two methods of a generic type belong to the same instantiation (same receiver type string).
+func (w *World) sameTypeArgs(f, g *ssa.Function) bool {
+	for f.Parent() != nil {
+		f = f.Parent()
+	}
+	for g.Parent() != nil {
+		g = g.Parent()
+	}
+	if f.Signature.Recv() == nil || g.Signature.Recv() == nil {
+		return true
+	}
+	return types.TypeString(f.Signature.Recv().Type(), nil) == types.TypeString(g.Signature.Recv().Type(), nil)
+}
